@@ -3,6 +3,7 @@ package main
 import (
 	"fmt"
 	"go/ast"
+	"go/parser"
 	"go/token"
 	"go/types"
 	"strings"
@@ -268,7 +269,18 @@ func (t *tr) evCall(c *ast.CallExpr) []Term {
 	if t.cur == nil {
 		return t.zeroResults(c)
 	}
+	// higher-order: `flag calls f(a, b)` — the callee calls its function-typed parameter f once with its own
+	// parameters a, b; we apply the contract of the actual argument (method value / function / literal).
+	var called []Term
+	if spec := con.Flags["calls"]; spec != "" {
+		called = t.applyCallsFlag(con, ct, c, spec)
+		if t.cur == nil {
+			return t.zeroResults(c)
+		}
+	}
+	t.calledResults = called
 	res := t.applyContract(con, ct, haveRecv, recvTerm, args, c.Pos())
+	t.calledResults = nil
 	if writeback != nil {
 		writeback()
 	}
@@ -448,6 +460,9 @@ func (t *tr) applyContract(con *Contract, ct *callTarget, haveRecv bool, recv Te
 		vars2[k] = v
 	}
 	t.bindResults(con, ct.sig, vars2, res)
+	for i, cr := range t.calledResults {
+		vars2[fmt.Sprintf("called%d", i)] = cr
+	}
 	sc2 := &specCtx{pkg: pkg, vars: vars2, cur: post, old: pre, where: con.File, qn: qn}
 	for _, kind := range []string{"ensures", "always_ensures"} {
 		for _, cl := range con.clauses(kind) {
@@ -1079,4 +1094,56 @@ func (t *tr) inlineLit(lit *ast.FuncLit, args []ast.Expr, pos token.Pos) []Term 
 	}
 	t.results, t.returns, t.loops = savedResults, savedReturns, savedLoops
 	return res
+}
+
+// applyCallsFlag evaluates the call that a higher-order callee makes to one of its function-typed arguments.
+func (t *tr) applyCallsFlag(con *Contract, ct *callTarget, c *ast.CallExpr, spec string) []Term {
+	e, err := parser.ParseExpr(spec)
+	if err != nil {
+		t.errorf(c.Pos(), "bad calls flag %q", spec)
+		return nil
+	}
+	ce, ok := e.(*ast.CallExpr)
+	if !ok {
+		t.errorf(c.Pos(), "bad calls flag %q", spec)
+		return nil
+	}
+	paramIdx := func(name string) int {
+		for i := 0; i < ct.sig.Params().Len(); i++ {
+			n := ct.sig.Params().At(i).Name()
+			if i < len(con.ParamNames) {
+				n = con.ParamNames[i]
+			}
+			if n == name {
+				return i
+			}
+		}
+		return -1
+	}
+	fid, ok := ce.Fun.(*ast.Ident)
+	if !ok {
+		t.errorf(c.Pos(), "bad calls flag %q", spec)
+		return nil
+	}
+	fi := paramIdx(fid.Name)
+	if fi < 0 || fi >= len(c.Args) {
+		t.errorf(c.Pos(), "calls flag: no parameter %s", fid.Name)
+		return nil
+	}
+	synth := &ast.CallExpr{Fun: c.Args[fi], Lparen: c.Lparen, Rparen: c.Rparen}
+	for _, a := range ce.Args {
+		aid, ok := a.(*ast.Ident)
+		if !ok {
+			t.errorf(c.Pos(), "calls flag: arguments must be parameter names")
+			return nil
+		}
+		ai := paramIdx(aid.Name)
+		if ai < 0 || ai >= len(c.Args) {
+			t.errorf(c.Pos(), "calls flag: no parameter %s", aid.Name)
+			return nil
+		}
+		synth.Args = append(synth.Args, c.Args[ai])
+	}
+	t.V.note("higher-order callee " + con.Key + ": assumed to call its function argument exactly once (flag calls)")
+	return t.evCall(synth)
 }
